@@ -23,7 +23,7 @@ ASSUMPTIONS = ["strict reader mc/rp66.py", "uniformity rule = documented (1 - d/
 
 DTYPES = ['float64', 'float32', 'int32', 'int16', 'int8', 'uint8', 'uint16', 'uint32']
 PATTERNS = ['inc', 'dec', 'const', 'nonmono', 'tol', 'outside', 'wide', 'skew-out', 'skew-in', 'skew-out-dec']
-USER = ['none', 'index_min', 'index_max', 'spacing', 'direction']
+USER = ['none', 'index_min', 'index_max', 'spacing', 'direction', 'index_min=0', 'index_max=0', 'spacing=0']
 ITYPE = [None, 'BOREHOLE-DEPTH', 'MY-INDEX']
 
 
@@ -114,7 +114,8 @@ def cases(shard, tier):
                 yield dict(shard, n=n, frm=f, to=t, user=user, itype=it, second=second)
 
 
-USER_VALUES = {'index_min': -7.5, 'index_max': 123456.0, 'spacing': 0.25, 'direction': 'DECREASING'}
+USER_VALUES = {'index_min': -7.5, 'index_max': 123456.0, 'spacing': 0.25, 'direction': 'DECREASING',
+               'index_min=0': 0, 'index_max=0': 0.0, 'spacing=0': 0}
 
 
 def expectation(dtype, vals, frm, to, itype, user):
@@ -152,10 +153,10 @@ def expectation(dtype, vals, frm, to, itype, user):
                 else:
                     exp['DIRECTION'] = ('absent',)
     if user != 'none':
-        label = user.upper().replace('_', '-')
+        label = user.split('=')[0].upper().replace('_', '-')
         uv = USER_VALUES[user]
         exp[label] = ('str', uv) if isinstance(uv, str) else ('eq', Fraction(uv))
-        if user == 'spacing':
+        if user.startswith('spacing'):
             exp['DIRECTION'] = ('any',)
         if user == 'direction' and exp['SPACING'][0] != 'absent':
             pass
@@ -204,7 +205,7 @@ def run_case(c):
     if c['itype']:
         fkw['index_type'] = c['itype']
     if c['user'] != 'none':
-        fkw[c['user']] = USER_VALUES[c['user']]
+        fkw[c['user'].split('=')[0]] = USER_VALUES[c['user']]
     sp = {'sul': {'max_record_length': 8192},
           'ops': [S.op_lf(), S.op_origin(), S.op_add('channel', 'C0', 'INDEX'),
                   S.op_add('channel', 'C1', 'VALUE'),
